@@ -81,7 +81,8 @@ def arrays_from_events(N, I0, tmin, events):
     return rows
 
 
-def sis_riders(A, props, fn, cls, G, nodes, I0, tmin, tmax, out, arrs, full, pre, sim, recall, exp=None, gam_pos=False):
+def sis_riders(A, props, fn, cls, G, nodes, I0, tmin, tmax, out, arrs, full, pre, sim, recall, exp=None, gam_pos=False,
+               out_of_contract=False):
     n = len(nodes)
     if "C04" in props:
         a = arrs if arrs is not None else [out.t(), out.S(), out.I()]
@@ -96,6 +97,11 @@ def sis_riders(A, props, fn, cls, G, nodes, I0, tmin, tmax, out, arrs, full, pre
                 A.add(V("C05", fn, cls, s, m, pre))
     if "C09" in props and full:
         for s, m in mon.c09(out, G, tmin, I0, "SIS"):
+            if out_of_contract and s == "source_not_I":
+                # the user's rule listed a delay beyond the source's infectious period (outside the documented
+                # contract "all delays are before recovery"): C13 defines what happens then, C09's "from an
+                # infectious node" presupposes the contract
+                continue
             A.add(V("C09", fn, cls, s, m, pre))
     if "C10" in props and full:
         r2 = run_once(sim, lambda orc: recall(orc, False), pre, exp=exp)
@@ -236,7 +242,8 @@ def run_nonmarkov_sis(spec, props=("C13",)):
                     got = list(zip(*[np.asarray(a).tolist() for a in arrs]))
                     if got != rows:
                         A.add(V("C13", fn, cls, "arrays", "arrays %r differ from the plain semantics %r" % (got, rows), pre, got, rows))
-        sis_riders(A, props, fn, cls, G, nodes, I0, tmin, tmax, out, arrs, full, pre, sim, call)
+        ooc = any(x >= d for (u, d, dl) in recs for l in dl.values() for x in l)
+        sis_riders(A, props, fn, cls, G, nodes, I0, tmin, tmax, out, arrs, full, pre, sim, call, out_of_contract=ooc)
     if runs:
         r = runs[len(runs) // 2]
         A.sample = {"spec": spec, "choices": list(r.chosen()), "rule_log": [list(map(repr, x)) for x in r.ctx.get("log", [])][:10]}
